@@ -203,6 +203,7 @@ def plan(tier, seed):
 
 
 _PN = []
+_WRITES = [0]
 
 
 def per_node_envs():
@@ -329,6 +330,28 @@ def run_history(ctx, text, hist, reps, case):
         live["list"] = [r.choice(gen.MEM_LEAVES) for _ in range(3)]
         live["o"] = {n: 1 for n in r.sample(["a", "b", "c", "k", "v"], 2)}
         live["names"] = r.sample(["a", "b", "c"], 2)
+    # the caller writes into the mappings that results hand out (match.filter_context()) after context-free evaluations
+    want_none = solo(text, d0, None)
+    handed = 0
+    for q, kw in ((p, {}), (p, {"filter_context": {}}), (jsonpath.compile("$"), {}), (jsonpath.compile("$..*"), {}), (jsonpath.compile("$[?@]"), {})):
+        o = impl.call(lambda: list(q.finditer(d0, **kw))[:3])
+        for m in (o.value if o.ok else []):
+            fc = m.filter_context()
+            if isinstance(fc, dict):
+                # alternate between filling and emptying, so that what is written differs from whatever an earlier case left behind
+                if _WRITES[0] % 2:
+                    fc.clear()
+                else:
+                    fc.update(impl.fresh(gen.CTX_DEFAULT))
+                    fc["k"] = r.choice([2, "a", 3])
+                handed += 1
+    _WRITES[0] += 1
+    ctx.count("mappings_handed_out_by_results_written_to", handed)
+    for kw, label in (({}, "no context"), ({"filter_context": {}}, "empty context")):
+        got = outcome(lambda: records(p.finditer(d0, **kw)))
+        if got != want_none:
+            ctx.violation("result-depends-on-writes-to-a-mapping-handed-out-by-an-earlier-result", case, {"text": text, "evaluated_with": label, "got": repr(got)[:300], "solo_before_the_writes": repr(want_none)[:300]})
+            return
     if mutate_in_place(r, d0):
         ex = hist[0][1]
         kw = {"filter_context": impl.fresh(ex)} if ex is not None else {}
